@@ -118,6 +118,9 @@ structure Graph where
   attr   : Node → NodeAttr
   input  : Node
   output : Node
+  /-- the order in which the builder added the nodes to the graph (`dag.graph.nodes`): the one deterministic node order
+  the engine has (the node sets of sub-DAGs are Python sets) -/
+  order  : List Node := []
 
 namespace Graph
 
